@@ -24,6 +24,11 @@ abbrev U64 := BitVec 64
 abbrev GMap (α : Type) := Option (List α)
 abbrev Slice (α : Type) := Option (List α)
 
+/-- Go `string` as the list of its characters (the models compare and concatenate, nothing else) -/
+abbrev Str := List Char
+/-- a string literal -/
+def str (s : String) : Str := s.toList
+
 variable {α : Type}
 
 def mapElems : GMap α → List α
